@@ -150,10 +150,11 @@ def parsedJ (p : Parsed) : Json :=
               ("comment", optValJ p.comment)]
 
 def tableJ (t : TableCall) : Json :=
-  Json.mkObj [("tname", str t.tname), ("meta", str t.metaName), ("cols", Json.arr (t.cols.map columnJ).toArray)]
+  Json.mkObj [("tname", str t.tname), ("meta", str t.metaName), ("cols", Json.arr (t.cols.map columnJ).toArray),
+              ("header_text", optStr t.headerText)]
 
 def stmtJ : Stmt → Json
-  | .docstring => Json.arr #["doc"]
+  | .docstring t => Json.arr #["doc", str t]
   | .assignStr t v => Json.arr #["str", str t, str v]
   | .assignCol t c => Json.arr #["col", str t, columnJ c]
   | .assignTable t tbl => Json.arr #["table", str t, tableJ tbl]
@@ -173,7 +174,7 @@ def exceptJ {α} (f : α → Json) : Except String α → Json
 def stmtOf (j : Json) : Except String Stmt := do
   let a ← j.getArr?
   let kind ← a[0]!.getStr?
-  if kind == "doc" then return .docstring
+  if kind == "doc" then return .docstring (match (a[1]? : Option Json) with | some (Json.str t) => t.toList | _ => [])
   else if kind == "def" then return .funcDef (← a[1]!.getStr?).toList
   else if kind == "str" then return .assignStr (← a[1]!.getStr?).toList (← a[2]!.getStr?).toList
   else if kind == "col" then return .assignCol (← a[1]!.getStr?).toList (← columnOf a[2]!)
@@ -210,11 +211,13 @@ def ops : List (String × Handler) := [
     let name ← getChars j "name"
     let ps ← paramsOf (← j.getObjVal? "params")
     let force ← getBool j "force"
-    let hasDoc ← getBool j "has_doc"
-    let ir : IR := { name := name, params := ps }
+    let doc ← getChars j "doc"
+    let hasReturns ← getBool j "has_returns"
+    let returnsHasDoc ← getBool j "returns_has_doc"
+    let ir : IR := { name := name, params := ps, doc := doc, hasReturns := hasReturns, returnsHasDoc := returnsHasDoc }
     let tbl := emitTable force ir
-    let cls := emitClass force hasDoc ir
-    let hyb := emitHybrid force hasDoc ir
+    let cls := emitClass force ir
+    let hyb := emitHybrid force ir
     let t2c := andThen tbl tableToClass
     return Json.mkObj [
       ("table", exceptJ (fun a => Json.mkObj [("target", str a.1), ("call", tableJ a.2)]) tbl),
